@@ -1623,11 +1623,26 @@ func (self *Aof) waitLockAofChannel(_ *AofChannel) {
 			self.slock.Log().Errorf("Aof flush file error %v", err)
 		}
 	}
-	if self.channelFlushWaiter != nil {
+	if self.channelFlushWaiter != nil && !self.hasQueuedAofChannel() {
 		close(self.channelFlushWaiter)
 		self.channelFlushWaiter = nil
 	}
 	self.aofGlock.Unlock()
+}
+
+// hasQueuedAofChannel reports whether a channel still has records queued: such a
+// channel has been signalled but may not have woken up (and counted itself
+// active) yet, so the flush waiters must not be released before it has run.
+func (self *Aof) hasQueuedAofChannel() bool {
+	for _, channel := range self.channels {
+		channel.queueGlock.Lock()
+		queueCount := channel.queueCount
+		channel.queueGlock.Unlock()
+		if queueCount > 0 {
+			return true
+		}
+	}
+	return false
 }
 
 func (self *Aof) syncFileAofChannel(_ *AofChannel) {
